@@ -20,20 +20,56 @@ class H:
 
 
 def ensure_vendor():
+    """the directory source is shared and read-only once built: (re)build it only when /repo/Cargo.lock changed, under a lock"""
+    import fcntl
     v = os.path.join(BUILD, "vendor")
-    r = subprocess.run(["python3", os.path.join(VERIF, "tools/mkvendor.py"), os.path.join(REPO, "Cargo.lock"), v],
-                       capture_output=True, text=True)
-    if r.returncode != 0:
-        raise RuntimeError("vendor setup failed: " + r.stderr[-2000:])
+    want = sha_of(os.path.join(REPO, "Cargo.lock"))
+    stamp = os.path.join(BUILD, "vendor.stamp")
+    os.makedirs(BUILD, exist_ok=True)
+    with open(os.path.join(BUILD, "vendor.lock"), "w") as lk:
+        fcntl.flock(lk, fcntl.LOCK_EX)
+        if os.path.isdir(v) and os.path.exists(stamp) and open(stamp).read().strip() == want and os.path.exists(os.path.join(BUILD, "cargo-config.toml")):
+            return
+        r = subprocess.run(["python3", os.path.join(VERIF, "tools/mkvendor.py"), os.path.join(REPO, "Cargo.lock"), v],
+                           capture_output=True, text=True)
+        if r.returncode != 0:
+            raise RuntimeError("vendor setup failed: " + r.stderr[-2000:])
+        open(os.path.join(BUILD, "cargo-config.toml"), "w").write(
+            '[source.crates-io]\nreplace-with = "vendored"\n[source.vendored]\ndirectory = "%s"\n[net]\noffline = true\n' % v)
+        open(stamp, "w").write(want)
 
 
 def crate_dir(group):
-    return os.path.join(VERIF, "kani", group)
+    return os.path.join(WORK, "kani", group)
+
+
+def sync_tree(src, dst):
+    """mirror src into dst keeping mtimes (so cargo's fingerprints stay valid); files that disappeared are removed"""
+    keep = set()
+    for root, dirs, files in os.walk(src):
+        dirs[:] = [d for d in dirs if d not in ("target",)]
+        rel = os.path.relpath(root, src)
+        os.makedirs(os.path.join(dst, rel), exist_ok=True)
+        for f in files:
+            if f == "Cargo.lock":
+                continue
+            sp, dp = os.path.join(root, f), os.path.normpath(os.path.join(dst, rel, f))
+            keep.add(dp)
+            if not os.path.exists(dp) or os.path.getmtime(dp) != os.path.getmtime(sp) or os.path.getsize(dp) != os.path.getsize(sp):
+                shutil.copy2(sp, dp)
+    for root, dirs, files in os.walk(dst):
+        for f in files:
+            dp = os.path.normpath(os.path.join(root, f))
+            if dp not in keep and f != "Cargo.lock":
+                os.remove(dp)
 
 
 def prep(group):
+    """private copy of the harness crate (and the two helper crates it depends on by relative path) for this property"""
     ensure_vendor()
     os.makedirs(LOGS, exist_ok=True)
+    for g in ("nd", "dbl", group):
+        sync_tree(os.path.join(VERIF, "kani", g), os.path.join(WORK, "kani", g))
     shutil.copy(os.path.join(REPO, "Cargo.lock"), os.path.join(crate_dir(group), "Cargo.lock"))
 
 
@@ -100,7 +136,7 @@ def run_group(group, harnesses, tier, hooks=False, stubbing=False, jobs=None, ex
     prep(group)
     jobs = jobs or min(NCPU, max(2, len(hs)))
     tmax = max(h.timeout for h in hs)
-    tgt = os.path.join(BUILD, f"kani-{group}")
+    tgt = os.path.join(WORK, f"kani-target-{group}")
     logp = os.path.join(LOGS, f"kani-{group}-{tier}-{os.getpid()}.log")
     cmd = ["cargo", "kani", "--lib", "--target-dir", tgt, "-j", str(jobs), "--output-format", "terse",
            "-Z", "unstable-options", "--harness-timeout", f"{tmax}s", "--exact"]
@@ -199,7 +235,7 @@ def build_replay(group, hooks):
     prep(group)
     bins = {}
     for prof in ("dev", "release"):
-        tgt = os.path.join(BUILD, f"replay-{group}")
+        tgt = os.path.join(WORK, f"replay-{group}")
         cmd = ["cargo", f"+{TOOLCHAIN_NATIVE}", "build", "--offline", "--target-dir", tgt, "--bin", "replay"]
         if prof == "release":
             cmd.append("--release")
@@ -231,7 +267,7 @@ def run_replay_file(group, harness, vals_path, hooks):
 
 def replay_failure(group, h, o, hooks, stubbing, extra_args):
     """Re-run one failed harness with concrete playback, store replay, run it natively."""
-    tgt = os.path.join(BUILD, f"kani-{group}")
+    tgt = os.path.join(WORK, f"kani-target-{group}")
     logp = os.path.join(LOGS, f"kani-{group}-{h.name}-playback.log")
     cmd = ["cargo", "kani", "--lib", "--target-dir", tgt, "--harness", group_mod(h), "--exact", "-Z", "concrete-playback",
            "--concrete-playback=print", "-Z", "unstable-options", "--harness-timeout", f"{h.timeout * 2}s"]
